@@ -2,8 +2,9 @@
 The state invariant of the request-response model behind the C11 theorems, and its preservation
 by the building blocks of the API operations.
 -/
-import Iox2.Proof.ReqResFrame
+import Iox2.Proof.ReqResInvB
 namespace Iox2.ReqRes
+open Iox2.PubSub (Reg firstFree)
 
 /-- initial channel state a receiver of kind `p` expects: the one of the opposite kind's sender -/
 def rcvInitState (p : Pid) : ChState := initState ⟨!p.srv, 0⟩
@@ -16,9 +17,6 @@ structure Inv (w : World) : Prop where
   /-- request ids of the pending responses of a client are distinct and below its counter -/
   cl1 : ∀ c C P, getCl w c = some C → P ∈ C.pendings → P.rid < C.ridCtr
   cl2 : ∀ c C, getCl w c = some C → C.pendings.Pairwise (fun a b => a.rid ≠ b.rid)
-  /-- a response channel that is not closed carries the request id of a pending response that owns it -/
-  s1 : ∀ (f : Pid) (c : Nat) (conn : Conn) (ch : Nat) (x : Chan) (v : Nat) (h : Bool), getConn w f (cid c) = some conn → conn.chans[ch]? = some x → x.state = .id v h →
-        f.srv = true → ∃ C, getCl w c = some C ∧ ∃ P ∈ C.pendings, P.rid = v ∧ P.channel = ch
   /-- queued requests were written by the client at the sending end of their connection -/
   e1 : ∀ (f t : Pid) (conn : Conn) (ch : Nat) (x : Chan) (e : Entry), getConn w f t = some conn → conn.chans[ch]? = some x → e ∈ x.sub → t.srv = true →
         f.srv = false ∧ e.msg.client = f.n ∧ ∃ C, getCl w f.n = some C ∧ e.msg.rid < C.ridCtr
@@ -39,6 +37,10 @@ structure Inv (w : World) : Prop where
   r3 : ∀ i c n, w.clientReg.slots.getD i none = some (c, n) → ∃ C, getCl w c = some C ∧ C.ex = true ∧ C.slot = i
   r2 : ∀ s S i t, getSnd w (sid s) = some S → S.conns.getD i none = some t →
         ∃ C, getCl w t.n = some C ∧ (C.ex = true → C.slot = i)
+  /-- ghost logs, request order, server registry -/
+  x : InvX w
+  /-- response streams -/
+  y : InvB w
 
 theorem getD_eq_some_iff {α : Type} (l : List (Option α)) (i : Nat) (a : α) :
     l.getD i none = some a ↔ l[i]? = some (some a) := by
@@ -50,7 +52,8 @@ theorem getD_eq_some_iff {α : Type} (l : List (Option α)) (i : Nat) (a : α) :
 /-- housekeeping by port `me` whose new connection slots (if any) come from the client registry -/
 theorem Inv.hk {w w' : World} {me : Pid} {P : Nat → Pid → Prop} (hI : Inv w) (h : Hk me w w')
     (hs : SlotsFrom me P w w')
-    (hP : ∀ i t, P i t → t.srv = !me.srv ∧ (me.srv = true → ∃ n, w.clientReg.slots.getD i none = some (t.n, n))) :
+    (hP : ∀ i t, P i t → t.srv = !me.srv ∧ (me.srv = true → ∃ n, w.clientReg.slots.getD i none = some (t.n, n)) ∧
+      (me.srv = false → ∃ n, w.serverReg.slots.getD i none = some (t.n, n))) :
     Inv w' := by
   have hcl : ∀ c, getCl w' c = getCl w c := h.getCl_eq
   have hsv : ∀ s, getSv w' s = getSv w s := h.getSv_eq
@@ -70,10 +73,10 @@ theorem Inv.hk {w w' : World} {me : Pid} {P : Nat → Pid → Prop} (hI : Inv w)
       (x'.sub = [] ∧ x'.state = initState f) := by
     intro f t c' ch x' hc hx
     rcases h.conns f t c' hc with ⟨c, hc0, l⟩ | fr
-    · obtain ⟨x, hx0, l0⟩ := l ch x' hx
+    · obtain ⟨x, hx0, l0⟩ := l.1 ch x' hx
       exact Or.inl ⟨c, x, hc0, hx0, l0.1, l0.2⟩
     · exact Or.inr (fr ch x' hx)
-  refine ⟨?_, ?_, ?_, ?_, ?_, ?_, ?_, ?_, ?_, ?_, ?_, ?_, ?_, ?_⟩
+  refine ⟨?_, ?_, ?_, ?_, ?_, ?_, ?_, ?_, ?_, ?_, ?_, ?_, ?_, hI.x.hk h hs (fun i t hp hme => (hP i t hp).2.2 hme), hI.y.hk h⟩
   · intro p S' hS'
     obtain ⟨S, hS, hi, _⟩ := hsnd p S' hS'
     rw [hi]; exact hI.sndInit p S hS
@@ -95,10 +98,6 @@ theorem Inv.hk {w w' : World} {me : Pid} {P : Nat → Pid → Prop} (hI : Inv w)
     · exact (hP i t h2).1
   · intro c C P' hC hP'; rw [hcl] at hC; exact hI.cl1 c C P' hC hP'
   · intro c C hC; rw [hcl] at hC; exact hI.cl2 c C hC
-  · intro f c conn ch x v hh hc hx hst hf
-    rcases hconn f (cid c) conn ch x hc hx with ⟨c0, x0, hc0, hx0, hs0, _⟩ | ⟨_, hs0⟩
-    · rw [hcl]; exact hI.s1 f c c0 ch x0 v hh hc0 hx0 (hs0 ▸ hst) hf
-    · rw [hs0] at hst; simp [initState, hf] at hst
   · intro f t conn ch x e hc hx he ht
     rcases hconn f t conn ch x hc hx with ⟨c0, x0, hc0, hx0, _, hsub⟩ | ⟨hnil, _⟩
     · rw [hcl]; exact hI.e1 f t c0 ch x0 e hc0 hx0 (hsub.subset he) ht
@@ -115,7 +114,7 @@ theorem Inv.hk {w w' : World} {me : Pid} {P : Nat → Pid → Prop} (hI : Inv w)
     rcases k i t ht with h1 | ⟨hme, h2⟩
     · exact hI.j s V A i S t C hV hA hi hS h1 hC hex
     · obtain ⟨hk, hreg⟩ := hP i t h2
-      obtain ⟨n, hn⟩ := hreg (by rw [← hme]; rfl)
+      obtain ⟨n, hn⟩ := hreg.1 (by rw [← hme]; rfl)
       have hslot := hI.a1 s V A i C hV hA hi hC hex
       obtain ⟨n', hn'⟩ := hI.r1 _ C hC hex
       rw [hslot, hn] at hn'
@@ -130,7 +129,7 @@ theorem Inv.hk {w w' : World} {me : Pid} {P : Nat → Pid → Prop} (hI : Inv w)
     rcases k i t ht with h1 | ⟨hme, h2⟩
     · exact hI.r2 s S i t hS h1
     · obtain ⟨_, hreg⟩ := hP i t h2
-      obtain ⟨n, hn⟩ := hreg (by rw [← hme]; rfl)
+      obtain ⟨n, hn⟩ := hreg.1 (by rw [← hme]; rfl)
       obtain ⟨C, hC, hex, hsl⟩ := hI.r3 i t.n n hn
       exact ⟨C, hC, fun _ => hsl⟩
 
@@ -144,5 +143,572 @@ theorem Inv.hkSame {w w' : World} {me : Pid} (hI : Inv w) (h : Hk me w w') (hs :
 
 theorem Inv.hkR {w w' : World} {me : Pid} (hI : Inv w) (h : HkR me w w') : Inv w' :=
   hI.hkSame h.toHk (h.slotsSame me)
+
+/-- a step that keeps clients, servers, registries and connections and only adds / removes /
+replaces port records by fresh ones (right initial state, no connection slot in use) -/
+theorem Inv.of_core {w w' : World} (hI : Inv w) (h1 : w'.clientReg = w.clientReg) (h2 : w'.serverReg = w.serverReg) (h4 : w'.clients = w.clients)
+    (h5 : w'.servers = w.servers) (h6 : w'.conns = w.conns)
+    (hs : ∀ p S', getSnd w' p = some S' → getSnd w p = some S' ∨ (S'.init = initState p ∧ ∀ i, S'.conns.getD i none = none))
+    (hr : ∀ p R', getRcv w' p = some R' → getRcv w p = some R' ∨ R'.init = rcvInitState p) : Inv w' := by
+  have hcl : ∀ c, getCl w' c = getCl w c := fun c => by unfold getCl; rw [h4]
+  have hsv : ∀ s, getSv w' s = getSv w s := fun c => by unfold getSv; rw [h5]
+  have hco : ∀ f t, getConn w' f t = getConn w f t := fun f t => by unfold getConn; rw [h6]
+  refine ⟨?_, ?_, ?_, ?_, ?_, ?_, ?_, ?_, ?_, ?_, ?_, ?_, ?_,
+    hI.x.of_core h2 h4 h5 h6 (fun p S' h => (hs p S' h).imp id (·.2)), hI.y.of_core h4 h5 h6⟩
+  · intro p S' hS'
+    rcases hs p S' hS' with h | h
+    · exact hI.sndInit p S' h
+    · exact h.1
+  · intro p R' hR'
+    rcases hr p R' hR' with h | h
+    · exact hI.rcvInit p R' h
+    · exact h
+  · intro p S' i t hS' ht
+    rcases hs p S' hS' with h | h
+    · exact hI.slotKind p S' i t h ht
+    · rw [h.2 i] at ht; cases ht
+  · intro c C P hC hP; rw [hcl] at hC; exact hI.cl1 c C P hC hP
+  · intro c C hC; rw [hcl] at hC; exact hI.cl2 c C hC
+  · intro f t conn ch x e hc hx he ht
+    rw [hco] at hc; rw [hcl]; exact hI.e1 f t conn ch x e hc hx he ht
+  · intro f t conn ch x e hc hx he ht
+    rw [hco] at hc; exact hI.e2 f t conn ch x e hc hx he ht
+  · intro s V A hV hA; rw [hsv] at hV; rw [hcl]; exact hI.a2 s V A hV hA
+  · intro s V A i C hV hA hi hC hex; rw [hsv] at hV; rw [hcl] at hC; exact hI.a1 s V A i C hV hA hi hC hex
+  · intro s V A i S' t C hV hA hi hS' ht hC hex
+    rw [hsv] at hV; rw [hcl] at hC
+    rcases hs _ S' hS' with h | h
+    · exact hI.j s V A i S' t C hV hA hi h ht hC hex
+    · rw [h.2 i] at ht; cases ht
+  · intro c C hC hex; rw [hcl] at hC; rw [h1]; exact hI.r1 c C hC hex
+  · intro i c n hreg; rw [h1] at hreg; simp only [hcl]; exact hI.r3 i c n hreg
+  · intro s S' i t hS' ht
+    simp only [hcl]
+    rcases hs _ S' hS' with h | h
+    · exact hI.r2 s S' i t h ht
+    · rw [h.2 i] at ht; cases ht
+
+theorem Inv.panic {w : World} (hI : Inv w) : Inv { w with panicked := true } :=
+  hI.of_core rfl rfl rfl rfl rfl (fun _ _ h => Or.inl h) (fun _ _ h => Or.inl h)
+
+theorem Inv.setSnap {w : World} (hI : Inv w) (p : Pid) (x : Snap) : Inv (setSnap w p x) :=
+  hI.of_core rfl rfl rfl rfl rfl (fun _ _ h => Or.inl h) (fun _ _ h => Or.inl h)
+
+/-- the records of a new port -/
+theorem Inv.newPort {w : World} (hI : Inv w) (p : Pid) (S : Snd) (R : Rcv) (sp : Snap)
+    (hS : S.init = initState p) (hSc : ∀ i, S.conns.getD i none = none) (hR : R.init = rcvInitState p) :
+    Inv (ReqRes.setSnap (setRcv (setSnd w p S) p R) p sp) := by
+  refine hI.of_core rfl rfl rfl rfl rfl ?_ ?_
+  · intro p' S' h
+    simp only [getSnd_setSnap, getSnd_setRcv, getSnd_setSnd] at h
+    split at h
+    · next hp => cases h; subst hp; exact Or.inr ⟨hS, hSc⟩
+    · exact Or.inl h
+  · intro p' R' h
+    simp only [getRcv_setSnap, getRcv_setRcv] at h
+    split at h
+    · next hp => cases h; subst hp; exact Or.inr hR
+    · exact Or.inl h
+
+/-- the records of a port that never got registered are removed again -/
+theorem Inv.delPort {w : World} (hI : Inv w) (p : Pid) : Inv (ReqRes.delPort w p) := by
+  unfold ReqRes.delPort
+  refine hI.of_core rfl rfl rfl rfl rfl ?_ ?_
+  · intro p' S' h
+    simp only [getSnd, AMap.get_del] at h
+    split at h
+    · cases h
+    · exact Or.inl h
+  · intro p' R' h
+    simp only [getRcv, AMap.get_del] at h
+    split at h
+    · cases h
+    · exact Or.inl h
+
+theorem getD_replicate_none {α : Type} (n i : Nat) : (List.replicate n (none : Option α)).getD i none = none := by
+  rw [List.getD_eq_getElem?_getD, List.getElem?_replicate]
+  split <;> rfl
+
+/-- the record of an existing client is replaced: same existence and slot, the request-id counter
+does not go back -/
+theorem Inv.setCl {w : World} (hI : Inv w) {c : Nat} {C C' : Client} (hC : getCl w c = some C)
+    (hex : C'.ex = C.ex) (hslot : C'.slot = C.slot) (hrid : C.ridCtr ≤ C'.ridCtr)
+    (h1 : ∀ P ∈ C'.pendings, P.rid < C'.ridCtr) (h2 : C'.pendings.Pairwise (fun a b => a.rid ≠ b.rid))
+    (hg : ∀ P ∈ C'.pendings, ∀ m ∈ P.gRecv, m.rid = P.rid ∧ (m.gClient = c ∨ m.gStale = true))
+    (hcnt : C'.pendings.length ≤ C'.activeCnt ∧ C'.activeCnt ≤ C'.maxActive)
+    (hy : InvB (ReqRes.setCl w c C')) :
+    Inv (ReqRes.setCl w c C') := by
+  have hcl : ∀ c', getCl (ReqRes.setCl w c C') c' = if c' = c then some C' else getCl w c' := fun _ => getCl_setCl _ _ _ _
+  refine ⟨hI.sndInit, hI.rcvInit, hI.slotKind, ?_, ?_, ?_, hI.e2, ?_, ?_, ?_, ?_, ?_, ?_,
+    hI.x.setCl (fun C0 h0 => by rw [hC] at h0; cases h0; exact hrid) hg hcnt, hy⟩
+  · intro c' X P hX hP
+    rw [hcl] at hX; split at hX
+    · cases hX; exact h1 P hP
+    · exact hI.cl1 c' X P hX hP
+  · intro c' X hX
+    rw [hcl] at hX; split at hX
+    · cases hX; exact h2
+    · exact hI.cl2 c' X hX
+  · intro f t conn ch x e hc hx he ht
+    obtain ⟨a, b, X, hX, hr⟩ := hI.e1 f t conn ch x e hc hx he ht
+    refine ⟨a, b, ?_⟩
+    rw [hcl]
+    by_cases hcc : f.n = c
+    · simp only [hcc, if_true]; rw [hcc, hC] at hX; cases hX
+      exact ⟨C', rfl, Nat.lt_of_lt_of_le hr hrid⟩
+    · simp only [hcc, if_false]; exact ⟨X, hX, hr⟩
+  · intro s V A hV hA
+    obtain ⟨X, hX, hr⟩ := hI.a2 s V A hV hA
+    rw [hcl]
+    by_cases hcc : A.msg.client = c
+    · simp only [hcc, if_true]; rw [hcc, hC] at hX; cases hX
+      exact ⟨C', rfl, Nat.lt_of_lt_of_le hr hrid⟩
+    · simp only [hcc, if_false]; exact ⟨X, hX, hr⟩
+  · intro s V A i X hV hA hi hX hXex
+    rw [hcl] at hX; split at hX
+    · next hcc => cases hX; rw [hslot]; exact hI.a1 s V A i C hV hA hi (hcc ▸ hC) (hex ▸ hXex)
+    · exact hI.a1 s V A i X hV hA hi hX hXex
+  · intro s V A i S t X hV hA hi hS ht hX hXex
+    rw [hcl] at hX; split at hX
+    · next hcc => cases hX; exact hI.j s V A i S t C hV hA hi hS ht (hcc ▸ hC) (hex ▸ hXex)
+    · exact hI.j s V A i S t X hV hA hi hS ht hX hXex
+  · intro c' X hX hXex
+    rw [hcl] at hX; split at hX
+    · next hcc => cases hX; subst hcc; rw [hslot]; exact hI.r1 c' C hC (hex ▸ hXex)
+    · exact hI.r1 c' X hX hXex
+  · intro i c' n hreg
+    obtain ⟨X, hX, hXex, hsl⟩ := hI.r3 i c' n hreg
+    rw [hcl]
+    by_cases hcc : c' = c
+    · subst hcc; simp only [if_true]; rw [hC] at hX; cases hX
+      exact ⟨C', rfl, hex ▸ hXex, hslot ▸ hsl⟩
+    · simp only [hcc, if_false]; exact ⟨X, hX, hXex, hsl⟩
+  · intro s S i t hS ht
+    obtain ⟨X, hX, hk⟩ := hI.r2 s S i t hS ht
+    rw [hcl]
+    by_cases hcc : t.n = c
+    · simp only [hcc, if_true]; rw [hcc, hC] at hX; cases hX
+      exact ⟨C', rfl, fun h => hslot ▸ hk (hex ▸ h)⟩
+    · simp only [hcc, if_false]; exact ⟨X, hX, hk⟩
+
+/-- only fields the invariant does not look at change -/
+theorem Inv.setCl_frame {w : World} (hI : Inv w) {c : Nat} {C C' : Client} (hC : getCl w c = some C)
+    (hex : C'.ex = C.ex) (hslot : C'.slot = C.slot) (hrid : C'.ridCtr = C.ridCtr)
+    (hp : C'.pendings.map (fun P => (P.rid, P.channel)) = C.pendings.map (fun P => (P.rid, P.channel)))
+    (hg : ∀ P ∈ C'.pendings, ∀ m ∈ P.gRecv, m.rid = P.rid ∧ (m.gClient = c ∨ m.gStale = true))
+    (hcnt : C'.pendings.length ≤ C'.activeCnt ∧ C'.activeCnt ≤ C'.maxActive)
+    (hy : InvB (ReqRes.setCl w c C')) :
+    Inv (ReqRes.setCl w c C') := by
+  have hmem : ∀ P' ∈ C'.pendings, ∃ P ∈ C.pendings, P.rid = P'.rid ∧ P.channel = P'.channel := by
+    intro P' hP'
+    have : (P'.rid, P'.channel) ∈ C'.pendings.map (fun P => (P.rid, P.channel)) := List.mem_map.mpr ⟨P', hP', rfl⟩
+    rw [hp] at this
+    obtain ⟨P, hP, e⟩ := List.mem_map.mp this
+    simp only [Prod.mk.injEq] at e
+    exact ⟨P, hP, e.1, e.2⟩
+  have hmem' : ∀ P ∈ C.pendings, ∃ P' ∈ C'.pendings, P'.rid = P.rid ∧ P'.channel = P.channel := by
+    intro P hP
+    have : (P.rid, P.channel) ∈ C.pendings.map (fun P => (P.rid, P.channel)) := List.mem_map.mpr ⟨P, hP, rfl⟩
+    rw [← hp] at this
+    obtain ⟨P', hP', e⟩ := List.mem_map.mp this
+    simp only [Prod.mk.injEq] at e
+    exact ⟨P', hP', e.1, e.2⟩
+  refine hI.setCl hC hex hslot (Nat.le_of_eq hrid.symm) ?_ ?_ hg hcnt hy
+  · intro P' hP'
+    obtain ⟨P, hP, e, _⟩ := hmem P' hP'
+    rw [← e, hrid]; exact hI.cl1 c C P hC hP
+  · have hpw := hI.cl2 c C hC
+    have h1 : (C.pendings.map (fun P => (P.rid, P.channel))).Pairwise (fun a b => a.1 ≠ b.1) := by
+      rw [List.pairwise_map]; exact hpw
+    rw [← hp, List.pairwise_map] at h1
+    exact h1
+
+/-! ### the registry -/
+
+theorem firstFree_spec {α : Type} (l : List (Option α)) (i j : Nat) (h : firstFree l i = some j) :
+    i ≤ j ∧ l[j - i]? = some none := by
+  induction l generalizing i with
+  | nil => simp [firstFree] at h
+  | cons a r ih =>
+    cases a with
+    | none => simp only [firstFree, Option.some.injEq] at h; subst h; simp
+    | some v =>
+      simp only [firstFree] at h
+      obtain ⟨h1, h2⟩ := ih (i + 1) h
+      refine ⟨by omega, ?_⟩
+      have : j - i = (j - (i + 1)) + 1 := by omega
+      rw [this, List.getElem?_cons_succ]; exact h2
+
+theorem regAdd_spec {α : Type} (r r' : Reg α) (a : α) (j : Nat) (h : r.add a = some (r', j)) :
+    r.slots[j]? = some none ∧ r'.slots = r.slots.set j (some a) := by
+  unfold Reg.add at h
+  split at h
+  · cases h
+  · next i hi =>
+    simp only [Option.some.injEq, Prod.mk.injEq] at h
+    obtain ⟨h1, h2⟩ := h
+    subst h2
+    have := (firstFree_spec r.slots 0 i hi).2
+    simp only [Nat.sub_zero] at this
+    exact ⟨this, by rw [← h1]⟩
+
+theorem getD_set_self {α : Type} (l : List (Option α)) (i : Nat) (v : Option α) (x : Option α)
+    (h : l[i]? = some x) : (l.set i v).getD i none = v := by
+  rw [List.getD_eq_getElem?_getD, getElem?_set_self' l i v x h]; rfl
+
+theorem getD_set_ne {α : Type} (l : List (Option α)) (i j : Nat) (v : Option α) (h : i ≠ j) :
+    (l.set i v).getD j none = l.getD j none := by
+  rw [List.getD_eq_getElem?_getD, List.getD_eq_getElem?_getD, List.getElem?_set]
+  simp [h]
+
+/-- a new client registers: its record appears together with its registry entry -/
+theorem Inv.clientNew {w : World} (hI : Inv w) {c n slot : Nat} {reg : Reg (Nat × Nat)} {C : Client}
+    (hfresh : getCl w c = none) (hadd : w.clientReg.add (c, n) = some (reg, slot))
+    (hslot : C.slot = slot) (hpend : C.pendings = []) (hex : C.ex = true) (hcnt : C.activeCnt ≤ C.maxActive) :
+    Inv { ReqRes.setCl w c C with clientReg := reg } := by
+  obtain ⟨hfree, hreg⟩ := regAdd_spec _ _ _ _ hadd
+  have hcl : ∀ c', getCl { ReqRes.setCl w c C with clientReg := reg } c' = if c' = c then some C else getCl w c' :=
+    fun _ => getCl_setCl _ _ _ _
+  have hfreeD : w.clientReg.slots.getD slot none = none := by
+    rw [List.getD_eq_getElem?_getD, hfree]; rfl
+  refine ⟨hI.sndInit, hI.rcvInit, hI.slotKind, ?_, ?_, ?_, hI.e2, ?_, ?_, ?_, ?_, ?_, ?_,
+    (hI.x.setCl (c := c) (C' := C) (fun C0 h0 => by rw [hfresh] at h0; cases h0)
+      (by rw [hpend]; intro P hP; cases hP) (by rw [hpend]; exact ⟨Nat.zero_le _, hcnt⟩)).clientReg reg,
+    (hI.y.setCl (c := c) (C' := C) (by rw [hpend]; intro P hP; cases hP) (by rw [hpend]; intro P hP; cases hP)
+      (by rw [hpend]; intro P hP; cases hP) (by rw [hpend]; intro P hP; cases hP)).clientReg reg⟩
+  · intro c' X P hX hP
+    rw [hcl] at hX; split at hX
+    · cases hX; rw [hpend] at hP; cases hP
+    · exact hI.cl1 c' X P hX hP
+  · intro c' X hX
+    rw [hcl] at hX; split at hX
+    · cases hX; rw [hpend]; exact List.Pairwise.nil
+    · exact hI.cl2 c' X hX
+  · intro f t conn ch x e hc hx he ht
+    obtain ⟨a, b, X, hX, hr⟩ := hI.e1 f t conn ch x e hc hx he ht
+    refine ⟨a, b, ?_⟩
+    rw [hcl]
+    by_cases hcc : f.n = c
+    · rw [hcc, hfresh] at hX; cases hX
+    · simp only [hcc, if_false]; exact ⟨X, hX, hr⟩
+  · intro s V A hV hA
+    obtain ⟨X, hX, hr⟩ := hI.a2 s V A hV hA
+    rw [hcl]
+    by_cases hcc : A.msg.client = c
+    · rw [hcc, hfresh] at hX; cases hX
+    · simp only [hcc, if_false]; exact ⟨X, hX, hr⟩
+  · intro s V A i X hV hA hi hX hXex
+    obtain ⟨X0, hX0, _⟩ := hI.a2 s V A hV hA
+    rw [hcl] at hX; split at hX
+    · next hcc => rw [hcc, hfresh] at hX0; cases hX0
+    · exact hI.a1 s V A i X hV hA hi hX hXex
+  · intro s V A i S t X hV hA hi hS ht hX hXex
+    obtain ⟨X0, hX0, _⟩ := hI.a2 s V A hV hA
+    rw [hcl] at hX; split at hX
+    · next hcc => rw [hcc, hfresh] at hX0; cases hX0
+    · exact hI.j s V A i S t X hV hA hi hS ht hX hXex
+  · intro c' X hX hXex
+    rw [hcl] at hX
+    show ∃ n, reg.slots.getD X.slot none = some (c', n)
+    rw [hreg]
+    split at hX
+    · next hcc => cases hX; subst hcc; rw [hslot]; exact ⟨n, getD_set_self _ _ _ _ hfree⟩
+    · obtain ⟨n', hn'⟩ := hI.r1 c' X hX hXex
+      have : slot ≠ X.slot := by intro e; rw [← e, hfreeD] at hn'; cases hn'
+      exact ⟨n', by rw [getD_set_ne _ _ _ _ this]; exact hn'⟩
+  · intro i c' n' hreg'
+    change reg.slots.getD i none = some (c', n') at hreg'
+    rw [hreg] at hreg'
+    rw [hcl]
+    rcases getD_set_some _ _ _ _ _ hreg' with ⟨h1, _⟩ | ⟨h1, h2⟩
+    · obtain ⟨X, hX, hXex, hsl⟩ := hI.r3 i c' n' h1
+      have hcc : c' ≠ c := by intro e; rw [e, hfresh] at hX; cases hX
+      simp only [hcc, if_false]; exact ⟨X, hX, hXex, hsl⟩
+    · simp only [Option.some.injEq, Prod.mk.injEq] at h2
+      obtain ⟨rfl, _⟩ := h2
+      simp only [if_true]
+      exact ⟨C, rfl, hex, h1 ▸ hslot⟩
+  · intro s S i t hS ht
+    obtain ⟨X, hX, hk⟩ := hI.r2 s S i t hS ht
+    rw [hcl]
+    have hcc : t.n ≠ c := by intro e; rw [e, hfresh] at hX; cases hX
+    simp only [hcc, if_false]; exact ⟨X, hX, hk⟩
+
+/-- the shared state of a client goes: its registry entry is released -/
+theorem Inv.clientGone {w : World} (hI : Inv w) {c : Nat} {C : Client} (hC : getCl w c = some C) (hex : C.ex = true) :
+    Inv { ReqRes.setCl w c { C with ex := false } with clientReg := w.clientReg.remove C.slot } := by
+  have hcl : ∀ c', getCl { ReqRes.setCl w c { C with ex := false } with clientReg := w.clientReg.remove C.slot } c'
+      = if c' = c then some { C with ex := false } else getCl w c' := fun _ => getCl_setCl _ _ _ _
+  have hreg : ({ ReqRes.setCl w c { C with ex := false } with clientReg := w.clientReg.remove C.slot } : World).clientReg.slots
+      = w.clientReg.slots.set C.slot none := rfl
+  refine ⟨hI.sndInit, hI.rcvInit, hI.slotKind, ?_, ?_, ?_, hI.e2, ?_, ?_, ?_, ?_, ?_, ?_,
+    (hI.x.setCl (c := c) (C' := { C with ex := false }) (fun C0 h0 => by rw [hC] at h0; cases h0; exact Nat.le_refl _)
+      (fun P hP m hm => hI.x.g1 c C P m hC hP hm) (hI.x.cl3 c C hC)).clientReg _,
+    (hI.y.setCl_sub (C' := { C with ex := false }) hC (fun P hP => Or.inl ⟨P, hP, rfl, rfl⟩)).clientReg _⟩
+  · intro c' X P hX hP
+    rw [hcl] at hX; split at hX
+    · next hcc => cases hX; exact hI.cl1 c C P hC hP
+    · exact hI.cl1 c' X P hX hP
+  · intro c' X hX
+    rw [hcl] at hX; split at hX
+    · cases hX; exact hI.cl2 c C hC
+    · exact hI.cl2 c' X hX
+  · intro f t conn ch x e hc hx he ht
+    obtain ⟨a, b, X, hX, hr⟩ := hI.e1 f t conn ch x e hc hx he ht
+    refine ⟨a, b, ?_⟩
+    rw [hcl]
+    by_cases hcc : f.n = c
+    · simp only [hcc, if_true]; rw [hcc, hC] at hX; cases hX; exact ⟨_, rfl, hr⟩
+    · simp only [hcc, if_false]; exact ⟨X, hX, hr⟩
+  · intro s V A hV hA
+    obtain ⟨X, hX, hr⟩ := hI.a2 s V A hV hA
+    rw [hcl]
+    by_cases hcc : A.msg.client = c
+    · simp only [hcc, if_true]; rw [hcc, hC] at hX; cases hX; exact ⟨_, rfl, hr⟩
+    · simp only [hcc, if_false]; exact ⟨X, hX, hr⟩
+  · intro s V A i X hV hA hi hX hXex
+    rw [hcl] at hX; split at hX
+    · cases hX; cases hXex
+    · exact hI.a1 s V A i X hV hA hi hX hXex
+  · intro s V A i S t X hV hA hi hS ht hX hXex
+    rw [hcl] at hX; split at hX
+    · cases hX; cases hXex
+    · exact hI.j s V A i S t X hV hA hi hS ht hX hXex
+  · intro c' X hX hXex
+    rw [hcl] at hX
+    show ∃ n, (w.clientReg.remove C.slot).slots.getD X.slot none = some (c', n)
+    split at hX
+    · cases hX; cases hXex
+    · next hcc =>
+      obtain ⟨n', hn'⟩ := hI.r1 c' X hX hXex
+      obtain ⟨n, hn⟩ := hI.r1 c C hC hex
+      have : C.slot ≠ X.slot := by
+        intro e; rw [e, hn'] at hn
+        simp only [Option.some.injEq, Prod.mk.injEq] at hn
+        exact hcc hn.1
+      exact ⟨n', by show (w.clientReg.slots.set C.slot none).getD X.slot none = _; rw [getD_set_ne _ _ _ _ this]; exact hn'⟩
+  · intro i c' n' hreg'
+    change (w.clientReg.slots.set C.slot none).getD i none = some (c', n') at hreg'
+    rw [hcl]
+    rcases getD_set_some _ _ _ _ _ hreg' with ⟨h1, hne⟩ | ⟨_, h2⟩
+    · obtain ⟨X, hX, hXex, hsl⟩ := hI.r3 i c' n' h1
+      have hcc : c' ≠ c := by
+        intro e; subst e; rw [hC] at hX; cases hX; exact hne hsl.symm
+      simp only [hcc, if_false]; exact ⟨X, hX, hXex, hsl⟩
+    · cases h2
+  · intro s S i t hS ht
+    obtain ⟨X, hX, hk⟩ := hI.r2 s S i t hS ht
+    rw [hcl]
+    by_cases hcc : t.n = c
+    · simp only [hcc, if_true]; exact ⟨_, rfl, fun h => by cases h⟩
+    · simp only [hcc, if_false]; exact ⟨X, hX, hk⟩
+
+/-- a server record is written (possibly with a new server registry): every active request of the new
+record must satisfy the active-request clauses; the `InvX` part is supplied by the caller -/
+theorem Inv.setSvReg {w : World} (hI : Inv w) (s : Nat) (V' : Server) (reg : Reg (Nat × Nat))
+    (h : ∀ A ∈ V'.actives,
+      (∃ C, getCl w A.msg.client = some C ∧ A.msg.rid < C.ridCtr) ∧
+      (∀ i C, A.connId = some i → getCl w A.msg.client = some C → C.ex = true →
+        C.slot = i ∧ ∀ S t, getSnd w (sid s) = some S → S.conns.getD i none = some t → t = cid A.msg.client))
+    (hx : InvX { ReqRes.setSv w s V' with serverReg := reg }) (hy : InvB { ReqRes.setSv w s V' with serverReg := reg }) :
+    Inv { ReqRes.setSv w s V' with serverReg := reg } := by
+  have hsv : ∀ s', getSv { ReqRes.setSv w s V' with serverReg := reg } s' = if s' = s then some V' else getSv w s' :=
+    fun _ => getSv_setSv _ _ _ _
+  refine ⟨hI.sndInit, hI.rcvInit, hI.slotKind, hI.cl1, hI.cl2, hI.e1, hI.e2, ?_, ?_, ?_, hI.r1, hI.r3, hI.r2, hx, hy⟩
+  · intro s' V A hV hA
+    rw [hsv] at hV; split at hV
+    · cases hV; exact (h A hA).1
+    · exact hI.a2 s' V A hV hA
+  · intro s' V A i C hV hA hi hC hex
+    rw [hsv] at hV; split at hV
+    · cases hV; exact ((h A hA).2 i C hi hC hex).1
+    · exact hI.a1 s' V A i C hV hA hi hC hex
+  · intro s' V A i S t C hV hA hi hS ht hC hex
+    rw [hsv] at hV; split at hV
+    · next hss => cases hV; subst hss; exact ((h A hA).2 i C hi hC hex).2 S t hS ht
+    · exact hI.j s' V A i S t C hV hA hi hS ht hC hex
+
+theorem Inv.setSv {w : World} (hI : Inv w) (s : Nat) (V' : Server)
+    (h : ∀ A ∈ V'.actives,
+      (∃ C, getCl w A.msg.client = some C ∧ A.msg.rid < C.ridCtr) ∧
+      (∀ i C, A.connId = some i → getCl w A.msg.client = some C → C.ex = true →
+        C.slot = i ∧ ∀ S t, getSnd w (sid s) = some S → S.conns.getD i none = some t → t = cid A.msg.client))
+    (hx : InvX (ReqRes.setSv w s V')) (hy : InvB (ReqRes.setSv w s V')) : Inv (ReqRes.setSv w s V') :=
+  hI.setSvReg s V' w.serverReg h hx hy
+
+theorem Inv.sub_actives {w : World} (hI : Inv w) {s : Nat} {V V' : Server} (hV : getSv w s = some V)
+    (h : ∀ A' ∈ V'.actives, ∃ A ∈ V.actives, A'.connId = A.connId ∧ A'.msg = A.msg) :
+    ∀ A ∈ V'.actives,
+      (∃ C, getCl w A.msg.client = some C ∧ A.msg.rid < C.ridCtr) ∧
+      (∀ i C, A.connId = some i → getCl w A.msg.client = some C → C.ex = true →
+        C.slot = i ∧ ∀ S t, getSnd w (sid s) = some S → S.conns.getD i none = some t → t = cid A.msg.client) := by
+  intro A' hA'
+  obtain ⟨A, hA, e1, e2⟩ := h A' hA'
+  rw [e1, e2]
+  exact ⟨hI.a2 s V A hV hA, fun i C hi hC hex =>
+    ⟨hI.a1 s V A i C hV hA hi hC hex, fun S t hS ht => hI.j s V A i S t C hV hA hi hS ht hC hex⟩⟩
+
+/-- the active requests of the new record are (copies of) active requests of the old one; existence,
+slot and request log stay -/
+theorem Inv.setSv_sub {w : World} (hI : Inv w) {s : Nat} {V V' : Server} (hV : getSv w s = some V)
+    (h : ∀ A' ∈ V'.actives, ∃ A ∈ V.actives, A'.connId = A.connId ∧ A'.msg = A.msg ∧ A.gSent ≤ A'.gSent)
+    (hu1 : V'.actives.Pairwise (fun a b => ¬ (a.msg.client = b.msg.client ∧ a.msg.rid = b.msg.rid)))
+    (hex : V'.ex = V.ex) (hslot : V'.slot = V.slot) (hlog : V'.gRecvReq = V.gRecvReq) : Inv (ReqRes.setSv w s V') :=
+  hI.setSv s V' (hI.sub_actives hV (fun A' hA' => let ⟨A, hA, e1, e2, _⟩ := h A' hA'; ⟨A, hA, e1, e2⟩))
+    (hI.x.setSv hV hex hslot hlog)
+    (hI.y.setSv_mono hV w.serverReg hlog hu1 (fun A' hA' => let ⟨A, hA, _, e2, e3⟩ := h A' hA'; ⟨A, hA, e2, e3⟩))
+
+/-! ### channel state changes -/
+
+theorem Inv.mapChanAt {w : World} (hI : Inv w) (f t : Pid) (ch : Nat) (g : Chan → Chan) (hg : ∀ x, (g x).sub = x.sub) :
+    Inv (ReqRes.mapChanAt w f t ch g) := by
+  have hconn := mapChanAt_conn w f t ch g
+  refine ⟨?_, ?_, ?_, ?_, ?_, ?_, ?_, ?_, ?_, ?_, ?_, ?_, ?_, hI.x.mapChanAt f t ch g hg, hI.y.mapChanAt f t ch g hg⟩
+  · intro p S hS; rw [getSnd_mapChanAt] at hS; exact hI.sndInit p S hS
+  · intro p R hR; rw [getRcv_mapChanAt] at hR; exact hI.rcvInit p R hR
+  · intro p S i t' hS ht; rw [getSnd_mapChanAt] at hS; exact hI.slotKind p S i t' hS ht
+  · intro c C P hC hP; rw [getCl_mapChanAt] at hC; exact hI.cl1 c C P hC hP
+  · intro c C hC; rw [getCl_mapChanAt] at hC; exact hI.cl2 c C hC
+  · intro f' t' conn ch' x' e hc hx he ht
+    obtain ⟨c0, hc0, k⟩ := hconn f' t' conn hc
+    obtain ⟨x, hx0, hor⟩ := k ch' x' hx
+    simp only [getCl_mapChanAt]
+    have : e ∈ x.sub := by
+      rcases hor with rfl | ⟨_, _, _, rfl⟩
+      · exact he
+      · rw [hg] at he; exact he
+    exact hI.e1 f' t' c0 ch' x e hc0 hx0 this ht
+  · intro f' t' conn ch' x' e hc hx he ht
+    obtain ⟨c0, hc0, k⟩ := hconn f' t' conn hc
+    obtain ⟨x, hx0, hor⟩ := k ch' x' hx
+    have : e ∈ x.sub := by
+      rcases hor with rfl | ⟨_, _, _, rfl⟩
+      · exact he
+      · rw [hg] at he; exact he
+    exact hI.e2 f' t' c0 ch' x e hc0 hx0 this ht
+  · intro s V A hV hA; rw [getSv_mapChanAt] at hV; simp only [getCl_mapChanAt]; exact hI.a2 s V A hV hA
+  · intro s V A i C hV hA hi hC hex
+    rw [getSv_mapChanAt] at hV; rw [getCl_mapChanAt] at hC; exact hI.a1 s V A i C hV hA hi hC hex
+  · intro s V A i S t' C hV hA hi hS ht hC hex
+    rw [getSv_mapChanAt] at hV; rw [getCl_mapChanAt] at hC; rw [getSnd_mapChanAt] at hS
+    exact hI.j s V A i S t' C hV hA hi hS ht hC hex
+  · intro c C hC hex; rw [getCl_mapChanAt] at hC; rw [clientReg_mapChanAt]; exact hI.r1 c C hC hex
+  · intro i c n hreg; rw [clientReg_mapChanAt] at hreg; simp only [getCl_mapChanAt]; exact hI.r3 i c n hreg
+  · intro s S i t' hS ht; rw [getSnd_mapChanAt] at hS; simp only [getCl_mapChanAt]; exact hI.r2 s S i t' hS ht
+
+theorem Inv.rcvMapChan {w : World} (hI : Inv w) (me : Pid) (ch : Nat) (g : Chan → Chan) (hg : ∀ x, (g x).sub = x.sub)
+    (l : List (Nat × Pid)) : Inv (ReqRes.rcvMapChan w me ch g l) := by
+  induction l generalizing w with
+  | nil => exact hI
+  | cons a r ih =>
+    obtain ⟨k, f⟩ := a
+    simp only [ReqRes.rcvMapChan]
+    exact ih (hI.mapChanAt f me ch g hg)
+
+theorem Inv.rcvMapAll {w : World} (hI : Inv w) (me : Pid) (ch : Nat) (g : Chan → Chan) (hg : ∀ x, (g x).sub = x.sub) :
+    Inv (ReqRes.rcvMapAll w me ch g) := by
+  unfold ReqRes.rcvMapAll
+  split
+  · exact hI.rcvMapChan me ch g hg _
+  · exact hI
+
+theorem Inv.activeFinish {w : World} (hI : Inv w) (s : Nat) (connId : Option Nat) (ch rid : Nat) :
+    Inv (ReqRes.activeFinish w s connId ch rid) := by
+  unfold ReqRes.activeFinish
+  split
+  · exact hI.mapChanAt _ _ _ _ (fun x => close_sub x _)
+  · exact hI
+
+/-! ### sending -/
+
+theorem Inv.deliverTo {w : World} (hI : Inv w) (p t : Pid) (ch : Nat) (e : Entry)
+    (he1 : t.srv = true → p.srv = false ∧ e.msg.client = p.n ∧ ∃ C, getCl w p.n = some C ∧ e.msg.rid < C.ridCtr)
+    (he2 : t.srv = false → e.msg.gClient = t.n ∨ e.msg.gStale = true)
+    (h2 : t.srv = true → ∀ (conn : Conn) (x : Chan) (e' : Entry), getConn w p t = some conn → conn.chans[ch]? = some x →
+      e' ∈ x.sub → e'.msg.rid < e.msg.rid)
+    (h3 : ∀ c s V v, p = cid c → t = sid s → getSv w s = some V → (c, v) ∈ V.gRecvReq → v < e.msg.rid)
+    (hy : InvB (ReqRes.deliverTo w p t ch e).1) :
+    Inv (ReqRes.deliverTo w p t ch e).1 := by
+  obtain ⟨k1, _, k3, k4, k5, _, ks⟩ := deliverTo_core w p t ch e
+  have hconn := deliverTo_conn w p t ch e
+  have hcl : ∀ c, getCl (ReqRes.deliverTo w p t ch e).1 c = getCl w c := fun c => by unfold getCl; rw [k3]
+  have hsv : ∀ c, getSv (ReqRes.deliverTo w p t ch e).1 c = getSv w c := fun c => by unfold getSv; rw [k4]
+  have hrc : ∀ c, getRcv (ReqRes.deliverTo w p t ch e).1 c = getRcv w c := fun c => by unfold getRcv; rw [k5]
+  refine ⟨?_, ?_, ?_, ?_, ?_, ?_, ?_, ?_, ?_, ?_, ?_, ?_, ?_, hI.x.deliverTo p t ch e h2 h3, hy⟩
+  · intro p' S' hS'
+    obtain ⟨S, hS, hi, _⟩ := ks p' S' hS'
+    rw [hi]; exact hI.sndInit p' S hS
+  · intro p' R hR; rw [hrc] at hR; exact hI.rcvInit p' R hR
+  · intro p' S' i t' hS' ht
+    obtain ⟨S, hS, _, hc⟩ := ks p' S' hS'
+    rw [hc] at ht; exact hI.slotKind p' S i t' hS ht
+  · intro c C P hC hP; rw [hcl] at hC; exact hI.cl1 c C P hC hP
+  · intro c C hC; rw [hcl] at hC; exact hI.cl2 c C hC
+  · intro f' t' conn ch' x' e' hc hx he ht
+    obtain ⟨c0, hc0, k⟩ := hconn f' t' conn hc
+    obtain ⟨x, hx0, _, hor⟩ := k ch' x' hx
+    simp only [hcl]
+    rcases hor with h | ⟨rfl, rfl, rfl, l, hl, hs⟩
+    · rw [h] at he; exact hI.e1 f' t' c0 ch' x e' hc0 hx0 he ht
+    · rw [hs] at he
+      rcases List.mem_append.mp he with h | h
+      · exact hI.e1 _ _ c0 _ x e' hc0 hx0 (hl.subset h) ht
+      · simp only [List.mem_singleton] at h; subst h; exact he1 ht
+  · intro f' t' conn ch' x' e' hc hx he ht
+    obtain ⟨c0, hc0, k⟩ := hconn f' t' conn hc
+    obtain ⟨x, hx0, _, hor⟩ := k ch' x' hx
+    rcases hor with h | ⟨rfl, rfl, rfl, l, hl, hs⟩
+    · rw [h] at he; exact hI.e2 f' t' c0 ch' x e' hc0 hx0 he ht
+    · rw [hs] at he
+      rcases List.mem_append.mp he with h | h
+      · exact hI.e2 _ _ c0 _ x e' hc0 hx0 (hl.subset h) ht
+      · simp only [List.mem_singleton] at h; subst h; exact he2 ht
+  · intro s V A hV hA; rw [hsv] at hV; simp only [hcl]; exact hI.a2 s V A hV hA
+  · intro s V A i C hV hA hi hC hex; rw [hsv] at hV; rw [hcl] at hC; exact hI.a1 s V A i C hV hA hi hC hex
+  · intro s V A i S' t' C hV hA hi hS' ht hC hex
+    rw [hsv] at hV; rw [hcl] at hC
+    obtain ⟨S, hS, _, hc⟩ := ks _ S' hS'
+    rw [hc] at ht
+    exact hI.j s V A i S t' C hV hA hi hS ht hC hex
+  · intro c C hC hex; rw [hcl] at hC; rw [k1]; exact hI.r1 c C hC hex
+  · intro i c n hreg; rw [k1] at hreg; simp only [hcl]; exact hI.r3 i c n hreg
+  · intro s S' i t' hS' ht
+    obtain ⟨S, hS, _, hc⟩ := ks _ S' hS'
+    rw [hc] at ht; simp only [hcl]; exact hI.r2 s S i t' hS ht
+
+theorem Inv.clientUpdate {w : World} (hI : Inv w) (c : Nat) : Inv (ReqRes.clientUpdate w c) := by
+  obtain ⟨h1, s1⟩ := clientUpdate_spec w c (hI.sndInit _) (fun R hR => by simpa [rcvInitState, initState] using hI.rcvInit _ R hR)
+  exact hI.hk h1 s1 (fun i t ⟨n, hn, ht⟩ => ⟨by simpa using ht, (fun h => by cases h), fun _ => ⟨n, (getD_eq_some_iff _ _ _).mpr hn⟩⟩)
+
+theorem Inv.serverUpdate {w : World} (hI : Inv w) (s : Nat) : Inv (ReqRes.serverUpdate w s) := by
+  obtain ⟨h1, s1⟩ := serverUpdate_spec w s (hI.sndInit _) (fun R hR => by simpa [rcvInitState, initState] using hI.rcvInit _ R hR)
+  exact hI.hk h1 s1 (fun i t ⟨n, hn, ht⟩ => ⟨by simpa using ht, fun _ => ⟨n, (getD_eq_some_iff _ _ _).mpr hn⟩, (fun h => by cases h)⟩)
+
+theorem Inv.finishPanic {w0 : World} (h0 : Inv w0) {r : World × String} (h : Inv r.1) : Inv (finishPanic w0 r).1 := by
+  unfold ReqRes.finishPanic; split
+  · exact h0.panic
+  · exact h
+
+theorem Inv.retrieveReturned {w : World} (hI : Inv w) (p : Pid) : Inv (ReqRes.retrieveReturned w p) := by
+  obtain ⟨h, s⟩ := retrieveReturned_hk w p
+  exact hI.hkSame h s
+
+theorem Inv.portDestroy {w : World} (hI : Inv w) (p : Pid) : Inv (ReqRes.portDestroy w p) := by
+  obtain ⟨h, s⟩ := portDestroy_hk w p
+  exact hI.hk0 h s
+
+theorem Inv.rcvRelease {w : World} (hI : Inv w) (p : Pid) (h : Held) : Inv (ReqRes.rcvRelease w p h) :=
+  hI.hkR (rcvRelease_hk w p h)
+
+/-- replacing a `Snd` record by one with the same `init` and slots -/
+theorem Inv.setSnd_same {w : World} (hI : Inv w) {p : Pid} {S S' : Snd} (hS : getSnd w p = some S)
+    (hi : S'.init = S.init) (hc : S'.conns = S.conns) : Inv (ReqRes.setSnd w p S') := by
+  refine hI.hkSame (Hk.setSnd hS hi) ?_
+  simp [SlotsSame, hS, hc]
+
+theorem Inv.sndReturnLoan {w : World} (hI : Inv w) (p : Pid) (c : Nat) : Inv (ReqRes.sndReturnLoan w p c) := by
+  unfold ReqRes.sndReturnLoan; split
+  · next S hS => exact hI.setSnd_same hS (by simp) (by simp)
+  · exact hI
 
 end Iox2.ReqRes
